@@ -102,11 +102,19 @@ def visLookup (vis : Vis) (v : Nat) : Option (Nat × Option Nat × Nat) := vis.f
 
 def visited (vis : Vis) (v : Nat) : Bool := (visLookup vis v).isSome
 
-/-- `level[v]` (0 where the BFS did not arrive; the callers check `allVisited`) -/
-def levelOf (vis : Vis) (v : Nat) : Int :=
-  match visLookup vis v with
-  | some e => (e.2.2 : Int)
-  | none => 0
+/-- one pass of `for i in range(1, n): level[node_order[i]] = level[predecessors[node_order[i]]] + 1`
+    (`e` is the queue entry of `node_order[i]`; its recorded predecessor is `predecessors[node_order[i]]`) -/
+def levStep (lev : List Int) (e : Nat × Option Nat × Nat) : List Int :=
+  lev.set e.1 (lev.getD (e.2.1.getD 0) 0 + 1)
+
+/-- `level = np.zeros(n)` followed by that loop over the queue entries after the root.
+    (The third component of a queue entry — the level noted at discovery — is a proof-side
+    annotation; `levelArr_spec` shows that this loop recomputes exactly those numbers.) -/
+def levelArr (n : Nat) (vis : Vis) : List Int :=
+  vis.tail.foldl levStep (List.replicate n 0)
+
+/-- `level[v]` -/
+def levelOf (n : Nat) (vis : Vis) (v : Nat) : Int := (levelArr n vis).getD v 0
 
 /-- `predecessors[v]` -/
 def predOf (vis : Vis) (v : Nat) : Option Nat := (visLookup vis v).bind fun e => e.2.1
@@ -145,13 +153,13 @@ def nonTree (vis : Vis) (es : List (Nat × Nat)) : List (Nat × Nat) :=
   es.filter fun e => predOf vis e.2 != some e.1
 
 def periodBFS (g : G) (vis : Vis) : Nat :=
-  (nonTree vis g.edges).foldl (gcdStep (levelOf vis)) 0
+  (nonTree vis g.edges).foldl (gcdStep (levelOf g.n vis)) 0
 
 inductive Res (α : Type) where
   | ok (a : α)
   | notImpl          -- NotImplementedError
   | stuck            -- the model's own guard failed (never expected)
-deriving Repr
+deriving Repr, DecidableEq
 
 def hasSelfLoop (g : G) : Bool := (List.range g.n).any fun u => (g.out u).contains u
 
@@ -177,7 +185,7 @@ def cyclicClasses (g : G) (d : Nat) (proj : Option Vis) : List (List Nat) :=
   | some vis =>
     if d == 1 then [List.range g.n]
     else (List.range d).map fun (k : Nat) =>
-      (List.range g.n).filter fun v => levelOf vis v % (d : Int) == (k : Int)
+      (List.range g.n).filter fun v => levelOf g.n vis v % (d : Int) == (k : Int)
 
 /-! ### sub-graph on a class and the period of a reducible chain -/
 
@@ -262,11 +270,31 @@ def reportMC (g : G) (lab : Nat → String) : String :=
     "irr=" ++ showBool sc ++ " ncomm=" ++ toString Cs.length ++ " nrec=" ++ toString (sinkLabels g Cs).length
       ++ " comm=" ++ showClasses lab sccs ++ " rec=" ++ showClasses lab sinks ++ " " ++ per ++ " " ++ cyc
 
+/-- `DiGraph.__init__`: explicitly stored zeros of a sparse input are not edges
+    (`eliminate_zeros()` on a copy).  `stored` = the column indices as stored, row by row;
+    `nz` = same shape, non-zero where the stored value is non-zero. -/
+def elimZeros (stored nz : List (List Nat)) : List (List Nat) :=
+  (stored.zip nz).map fun rf => ((rf.1.zip rf.2).filter fun p => p.2 != 0).map Prod.fst
+
+def sameShape (a b : List (List Nat)) : Bool :=
+  a.length == b.length && (a.zip b).all fun p => p.1.length == p.2.length
+
 def parseGraph (r : List String) : Option (G × (Nat → String)) :=
   match kvNat r "n", kvNatMat r "adj" with
-  | some n, some adj =>
+  | some n, some adj0 =>
     -- a single empty row is written `-`, which the matrix parser reads as "no rows"
-    let g : G := ⟨n, if n == 1 && adj.isEmpty then [[]] else adj⟩
+    let fix1 := fun (m : List (List Nat)) => if n == 1 && m.isEmpty then [[]] else m
+    let adj? : Option (List (List Nat)) :=
+      match kv r "nz" with
+      | none => some (fix1 adj0)
+      | some _ =>
+        match kvNatMat r "nz" with
+        | some nz => if sameShape (fix1 adj0) (fix1 nz) then some (elimZeros (fix1 adj0) (fix1 nz)) else none
+        | none => none
+    match adj? with
+    | none => none
+    | some adj =>
+    let g : G := ⟨n, adj⟩
     if n == 0 || !g.wf then none
     else
       match kv r "labels" with
@@ -287,6 +315,21 @@ def handle (toks : List String) : String :=
     match parseGraph r with
     | some (g, lab) => reportMC g lab
     | none => "bad-op"
+  | "sub" :: r =>
+    -- `DiGraph.subgraph(nodes)`: its shape, pattern (rows sorted for printing), labels, and report
+    match parseGraph r, kvNats r "nodes", kv r "labels" with
+    | some (g, lab), some nodes, labs =>
+      if nodes.isEmpty || !(nodes.all fun v => decide (v < g.n)) then "bad-op"
+      else
+        let h := subgraph g nodes
+        let lab' : Nat → String := match labs with
+          | none => fun i => toString i
+          | some _ => fun i => match nodes[i]? with
+            | some u => lab u
+            | none => "?"
+        "n=" ++ toString h.n ++ " adj=" ++ showMat toString (h.succ.map fun row => row.mergeSort (fun a b => decide (a ≤ b)))
+          ++ " " ++ reportDG h lab'
+    | _, _, _ => "bad-op"
   | "reach" :: r =>
     match parseGraph r, kvNat r "s" with
     | some (g, _), some s =>
